@@ -123,3 +123,14 @@ def ref_parse_openmetrics(path):
         return 'unspec'                  # trailing comma
     pos = i
   return metric, pairs
+
+
+def canonical(path):
+  """Reference canonical form of a well-formed path in either syntax (the path itself when it is not tagged / not well-formed)."""
+  ref = ref_parse_openmetrics(path) if is_openmetrics_shaped(path) else ref_parse_carbon(path)
+  if ref is None or ref == 'unspec':
+    return path
+  metric, pairs = ref
+  if not pairs:
+    return path
+  return metric + ''.join(';%s=%s' % kv for kv in sorted((k, v) for k, v in pairs if k != 'name'))
